@@ -237,6 +237,11 @@ def run_case(concepts, case, spec):
         call(list, lat)
         call(list, it1)
         COL.count('interleaved_iterations')
+    if len(ctx.objects) <= 12 and len(ctx.properties) <= 12:
+        common.interference(concepts, ctx, lat, rng, 15)
+        call(list, lat)
+        call(len, lat)
+        COL.count('asked_again_after_interference')
     old = POOL.older(rng)
     if old is not None:
         call(list, old)
